@@ -113,6 +113,45 @@ def run(chk: Check):
                                           f"does not permute the outputs (n_batch={nbp})", {"instance": I["json"], "perm": p})
             chk.sample({"routine": "calc_overlap/energy/force_bias", "kind": kind, "N": N, "divisors": plan["divisors"],
                         "perms": plan["perms"][:2]}, limit=3)
+    # ------------------------------------------------------------------ A2. a dead walker in the batch
+    # one walker exactly orthogonal to the trial (overlap 0, its own force bias / energy non-finite): the values of the
+    # OTHER walkers must not depend on which batch they share with it, nor on where it sits in the population
+    import scipy.linalg as _sla
+    for kind in ("rhf", "uhf"):
+        norb, nu, nd = (4, 2, 2) if kind == "rhf" else (4, 2, 1)
+        for restricted in ((True, False) if kind == "rhf" else (False,)):
+            try:
+                I = wf.make_instance(9000 + len(kind) + int(restricted), rng, kind, norb, nu, nd, 2, 4, restricted, spin_dep=False)
+            except MachineryError:
+                continue
+            trial, wd, hd, ham = wf.build_lib(I)
+            Cu = np.asarray(wd["mo_coeff"] if kind == "rhf" else wd["mo_coeff"][0], dtype=complex)
+            null = _sla.null_space(Cu.conj().T)[:, 0]               # orthogonal to every occupied trial orbital
+            for pos, how in ((0, "orthogonal"), (2, "nan")):
+                J = dict(I)
+                wk = [(np.array(w[0], dtype=complex), np.array(w[1], dtype=complex)) for w in I["walkers"]]
+                wu = wk[pos][0].copy()
+                if how == "orthogonal":
+                    wu[:, 0] = null
+                else:               # a walker that blew up earlier: its matrix is NaN (weight 0, still in the population until SR)
+                    wu[:] = np.nan
+                wk[pos] = (wu, wu.copy() if (restricted or kind == "rhf" and nu == nd and restricted) else wk[pos][1])
+                J["walkers"] = wk
+                healthy = [k for k in range(4) if k != pos]
+                for what in ("fb", "e"):
+                    base = wfcheck.lib_eval(J, what, n_batch=1)
+                    for cname, b0 in base.items():
+                        if isinstance(b0, dict):
+                            continue
+                        for nb in (2, 4):
+                            got = wfcheck.lib_eval(J, what, n_batch=nb)[cname]
+                            chk.case(("dead-walker", kind, restricted, pos, what, cname, nb))
+                            chk.traces += 1
+                            if isinstance(got, dict) or rel(np.asarray(got)[healthy], np.asarray(b0)[healthy]) > tol_for(what, kind):
+                                chk.violation(f"{what}:{kind}:{cname}:dead-walker-in-batch", f"{kind} calc_{what} ({cname}): with walker {pos} dead ({how}: "
+                                              f"orthogonal to the trial / NaN matrix), the values of the other walkers depend on n_batch ({nb} vs 1): "
+                                              f"{np.asarray(got)[healthy].tolist() if not isinstance(got, dict) else got} vs {np.asarray(b0)[healthy].tolist()}",
+                                              {"kind": kind, "n_batch": nb, "dead": pos})
     # ------------------------------------------------------------------ B. propagation routines
     def prop_cases():
         for wt, tk, nelec in (("uhf", "uhf", (2, 1)), ("rhf", "rhf", (2, 2))):
@@ -240,12 +279,15 @@ def run(chk: Check):
     S = proxies.sampler_proxy()
     # C0. sampler level, including Cholesky matrices that are NOT symmetric (the two propagators must still build the
     # same one-body propagator and follow the same trajectory)
-    for sym in (True, False):
+    for sym in (True, False, "h1"):
         outs = {}
         for wt in ("rhf", "uhf"):
             sysd = runlevel.make_system(np.random.default_rng(41 + chk.seed), norb=4, nelec=(2, 2), nchol=3, trial_kind=wt,
                                         walker_type=wt, n_walkers=4, dt=0.03, vscale=0.4)
-            if not sym:
+            if sym == "h1":     # a NON-symmetric one-body matrix, the same for both spins (h1 + coupling x a non-symmetric operator)
+                a_ = np.triu(np.random.default_rng(44 + chk.seed).normal(size=(4, 4))) * 0.3
+                sysd["ham_data"]["h1"] = sysd["ham_data"]["h1"] + jnp.array([a_, a_])
+            elif not sym:
                 g = np.random.default_rng(43 + chk.seed).normal(size=(3, 4, 4)) * 0.3
                 sysd["ham_data"]["chol"] = jnp.array(g.reshape(3, -1))
             pd0 = runlevel.init_prop_data(sysd, 77)
@@ -259,8 +301,8 @@ def run(chk: Check):
         dw = float(np.max(np.abs(outs["rhf"][1] - outs["uhf"][1])))
         dh = float(np.max(np.abs(outs["rhf"][2] - outs["uhf"][2])))
         if de > 1e-9 * max(1, abs(outs["uhf"][0])) or dw > 1e-9 or dh > 1e-12:
-            chk.violation("trajectory:sampler:restricted-vs-unrestricted" + ("" if sym else ":nonsymmetric-chol"),
-                          f"closed-shell problem ({'symmetric' if sym else 'non-symmetric'} Cholesky matrices): restricted and unrestricted "
+            chk.violation("trajectory:sampler:restricted-vs-unrestricted" + (":nonsymmetric-h1" if sym == "h1" else "" if sym else ":nonsymmetric-chol"),
+                          f"closed-shell problem ({'non-symmetric one-body matrix' if sym == 'h1' else 'symmetric Cholesky matrices' if sym else 'non-symmetric Cholesky matrices'}): restricted and unrestricted "
                           f"sampler runs differ: energies {outs['rhf'][0]} vs {outs['uhf'][0]}, max weight difference {dw}, exp_h1 "
                           f"difference {dh}", {"symmetric_chol": sym})
     # C0b. sampler level, fields drawn INSIDE the sampler: the same seed must give the same block energy, weights and walkers
